@@ -120,3 +120,23 @@ Theorem C09_exiting_stack_children : forall n cbs oid a nm code ws cur,
         nth_error kids j = Some (COut oself (spec_async k) false (Some (series n g)) [] info).
 Proof. exact exiting_stack_children. Qed.
 Print Assumptions C09_exiting_stack_children.
+
+(* Concurrent registration: elaborate_exit_stack works on a snapshot of the callback list and
+   contextlib only appends, so the children for the callbacks registered at snapshot time are
+   exactly a prefix of the children seen after any further registrations (never a partial or empty
+   list). *)
+Theorem C09_snapshot_prefix : forall n cbs extra ex r p i oid a nm,
+  exists kids more,
+    fill (S n) ex r p i (Wth oid a nm (MStack cbs)) = COut oid a ex None kids i /\
+    fill (S n) ex r p i (Wth oid a nm (MStack (cbs ++ extra))) = COut oid a ex None (kids ++ more) i /\
+    length kids = length cbs /\ length more = length extra.
+Proof. exact snapshot_prefix. Qed.
+Print Assumptions C09_snapshot_prefix.
+
+(* Repeated use: the model (like the code) carries nothing from one extraction to the next; after
+   any history, including extractions that failed part-way, an extraction yields the unfolding of the
+   tree as it is at that moment. *)
+Theorem C09_history_stateless : forall fuel pre f post,
+  nth_error (extract_seq fuel (pre ++ Some f :: post)) (length pre) = Some (HOk (series fuel f)).
+Proof. exact history_stateless. Qed.
+Print Assumptions C09_history_stateless.
